@@ -52,7 +52,7 @@ def gen_tables():
 
 def generate(rng, tier, count):
     for i in range(count):
-        yield C.gen_c06(rng, rejecting=(i % 5 == 4), edits=(i % 3 == 0), default_caps=True)
+        yield C.gen_c06(rng, rejecting=(i % 5 == 4), edits=(i % 3 == 0), default_caps=True, rich=True)
 
 
 def generate_rejecting(rng, tier, count):
